@@ -106,7 +106,10 @@ def prefix_matches(gen: int, d: dict, partial: bytes) -> bool:
     """Is `partial` a proper prefix of a frame for d (packet id and open bytes free)?"""
     if not partial:
         return False
-    full = frame(gen, d, 0)
+    try:
+        full = frame(gen, d, 0)
+    except (ValueError, OverflowError, KeyError):
+        return False  # a description no frame exists for (the deliberately un-encodable messages of C01 / C07)
     if len(partial) > len(full):
         return False
     pid_off = 4 if gen == 4 else 16
